@@ -12,8 +12,8 @@
     `C20.Lifo`      include/mpmc_lifo.h    (model Model/Lifo.lean,     invariant Proof/Lifo.lean)
     `C20.DistFifo`  include/dist_fifo.h    (model Model/DistFifo.lean, invariant Proof/DistFifo.lean)
     `C20.Stack`     include/mpmc_stack.h   (model Model/Stack.lean,    invariant Proof/Stack.lean)
-    `C20.MultiSignal`  include/fiber_signal.h — needs the fiber runtime; to be added in its own
-                    namespace at the end of this file.
+    `C20.MultiSignal`  include/fiber_signal.h, fiber_multi_signal_t (model Model/MultiSignal.lean,
+                    invariant Proof/MultiSignal*.lean; harness on the real fiber runtime)
 
   Every theorem quantifies over ALL event lists the model accepts (`run es = some s`): any
   number of threads, any number of nodes, any amount of node reuse, every interleaving of the
@@ -26,6 +26,7 @@
 import LibfiberVerif.Proof.Lifo
 import LibfiberVerif.Proof.DistFifo
 import LibfiberVerif.Proof.Stack
+import LibfiberVerif.Proof.MultiSignal
 
 namespace LibfiberVerif.Props.C20
 
@@ -411,7 +412,148 @@ example : ((sys (fun n => if n = 2 then 1 else 0)).run reuseTrace).map (fun s =>
 end Stack
 
 /-! ################################################################################
-    ## Part 4 — fiber_signal.h (multi-waiter signal): namespace `MultiSignal`, to be appended
+    ## Part 4 — fiber_signal.h, fiber_multi_signal_t (multi-waiter signal)
+    (section owned by the C11/multi-signal work; model Model/MultiSignal.lean, invariant
+    Proof/MultiSignal*.lean; harness harness/multisignal.c on the real fiber runtime)
+
+    "A multi-signal raise either releases exactly one waiter or leaves the signal raised
+     for the next wait (pending raises coalesce); it never releases two waiters and is
+     never dropped while a fiber is waiting."
+
+    Actors are fibers (any number), on any number of kernel threads.  One model step per
+    shared access: the two snapshot loads (counter FIRST, then head — torn snapshots are in
+    the model), the plain read of `head->next` of a possibly stale head, the CAS2, the
+    sleeper's hand-shake (`scratch`, the deferred READY_TO_WAKE write by its successor) and
+    the raiser's spin on it.  `stack` is the ghost list of listed fibers, `waker f = some g`
+    means raiser g popped f and has not woken it yet.
     ################################################################################ -/
+namespace MultiSignal
+open LibfiberVerif LibfiberVerif.MultiSignal
+
+/-- the model as the driver instantiates it: fiber F<k> owns list node N<k> -/
+abbrev msys := sys (fun k => k)
+
+/-- `counter_counts_updates`: the counter word equals the number of successful CAS2s (every
+    branch of wait / raise / raise_strict increments it), so a CAS2 that succeeds from a
+    snapshot proves that nothing happened since the counter was read. -/
+theorem counter_counts_updates (es : List Ev) (s : St) (h : msys.run es = some s) :
+    s.counter = (es.filter casOkEv).length := by
+  rw [(inv_of_run h).cnt]; exact updates_of_run h
+
+/-- RAISED ⇒ no waiter is listed (and NULL ⇒ none either; a node ⇒ it is the top of the list
+    and the `next` pointers spell out the rest). -/
+theorem raised_no_waiter (es : List Ev) (s : St) (h : msys.run es = some s) :
+    (s.head = .raised → s.stack = []) ∧ (s.head = .nil → s.stack = []) ∧
+    (∀ n, s.head = .node n → ∃ rest, s.stack = n :: rest ∧ s.next n = headOf rest) := by
+  obtain ⟨a, b, c⟩ := stack_of_head (inv_of_run h)
+  exact ⟨a, b, fun n hn => by obtain ⟨rest, h1, h2, _⟩ := c n hn; exact ⟨rest, h1, h2⟩⟩
+
+/-- `raise_one_or_latch`: the successful CAS2 of a raise (plain or strict, from ANY snapshot,
+    however stale the `next` it read) either
+    * pops EXACTLY the top listed fiber n — the list loses n and nothing else, this raiser (and
+      only it: `waker n = some f`) goes on to wake n — or
+    * finds NO fiber listed and leaves RAISED (latching it, or coalescing with a pending
+      raise when it already was RAISED), waking nobody.
+    In particular a raise is never dropped while a fiber is listed: with `s.stack ≠ []` only
+    the first alternative is possible. -/
+theorem raise_one_or_latch (es : List Ev) (s s' : St) (f ec : Nat) (eh : H) (nc : Nat) (nh : H)
+    (h : msys.run es = some s) (hr : (s.pc f).raiseCas)
+    (hs : step s (.cas2 f ec eh nc nh true) = some s') :
+    (∃ n rest, s.stack = n :: rest ∧ eh = .node n ∧ s'.stack = rest ∧ s'.head = headOf rest ∧
+        s'.pc f = .rPopped n ∧ s'.waker n = some f ∧ s'.released = s.released + 1) ∨
+    (s.stack = [] ∧ (eh = .nil ∨ eh = .raised) ∧ s'.stack = [] ∧ s'.head = .raised ∧
+        s'.pc f = .rDone false ∧ s'.released = s.released ∧ s'.waker = s.waker ∧ s'.wakes = s.wakes) :=
+  raise_cas_ok (inv_of_run h) f ec eh nc nh hr hs
+
+/-- never dropped while a fiber is waiting: if some fiber is listed, a raise's successful CAS2
+    releases one -/
+theorem raise_never_dropped (es : List Ev) (s s' : St) (f ec : Nat) (eh : H) (nc : Nat) (nh : H)
+    (h : msys.run es = some s) (hr : (s.pc f).raiseCas) (hne : s.stack ≠ [])
+    (hs : step s (.cas2 f ec eh nc nh true) = some s') :
+    ∃ n rest, s.stack = n :: rest ∧ s'.stack = rest ∧ s'.waker n = some f := by
+  rcases raise_one_or_latch es s s' f ec eh nc nh h hr hs with ⟨n, rest, h1, _, h3, _, _, h6, _⟩ | ⟨h1, _⟩
+  · exact ⟨n, rest, h1, h3, h6⟩
+  · exact absurd h1 hne
+
+/-- a wait's successful CAS2 either CONSUMES a latched RAISED — the signal is reset to NULL and
+    the wait returns without sleeping (`parks` unchanged) — or lists the fiber on top -/
+theorem wait_consumes_or_lists (es : List Ev) (s s' : St) (f ec : Nat) (eh : H) (nc : Nat) (nh : H)
+    (h : msys.run es = some s) (hw : (s.pc f).waitCas)
+    (hs : step s (.cas2 f ec eh nc nh true) = some s') :
+    (eh = .raised ∧ s.head = .raised ∧ s.stack = [] ∧ s'.head = .nil ∧ s'.stack = [] ∧
+        s'.pc f = .waitDone ∧ s'.parks = s.parks ∧ s'.consumed = s.consumed + 1) ∨
+    (eh ≠ .raised ∧ s'.head = .node f ∧ s'.stack = f :: s.stack ∧ s'.pc f = .wListed ∧
+        s'.parks f = s.parks f + 1) :=
+  wait_cas_ok (inv_of_run h) f ec eh nc nh hw hs
+
+/-- a fiber that sleeps on the signal and has not been woken is either still listed (and then
+    no raiser holds it) or held by a raiser that popped it (and then it is not listed): its
+    wake-up is never lost and never duplicated -/
+theorem sleeper_listed_or_held (es : List Ev) (s : St) (f : Nat) (h : msys.run es = some s)
+    (hsl : (s.pc f).sleepy) (hun : s.wakes f + 1 = s.parks f) :
+    (f ∈ s.stack ∧ ∀ g, ¬ (s.pc g).targets f) ∨ (f ∉ s.stack ∧ ∃ g, (s.pc g).targets f) :=
+  asleep_accounted (inv_of_run h) f hsl hun
+
+/-- never two: every sleep is ended by at most one wake-up (`wakes ≤ parks ≤ wakes + 1`), at
+    most one raiser is on its way to wake a given fiber, and the list has no duplicates -/
+theorem single_wake (es : List Ev) (s : St) (f : Nat) (h : msys.run es = some s) :
+    s.wakes f ≤ s.parks f ∧ s.parks f ≤ s.wakes f + 1 ∧
+    (∀ g g', (s.pc g).targets f → (s.pc g').targets f → g = g') ∧ s.stack.Nodup := by
+  obtain ⟨a, b, c⟩ := single_wake_of_inv (inv_of_run h) f
+  exact ⟨a, b, c, (inv_of_run h).nodup⟩
+
+/-- the wake-up itself (`g->state = READY`, then schedule) happens only after the sleeper's
+    context switch completed (its successor wrote the READY_TO_WAKE marker), the sleeper was
+    owed exactly this wake-up, and afterwards it is owed none -/
+theorem wake_after_marker (es : List Ev) (s s' : St) (g f : Nat) (h : msys.run es = some s)
+    (hs : step s (.wStateReady g f) = some s') :
+    s.pc f = .parked ∧ s.scratch f = true ∧ s.wakes f + 1 = s.parks f ∧ f ∉ s.stack ∧
+    s'.wakes f = s'.parks f :=
+  wake_after_marker_of_inv (inv_of_run h) g f hs
+
+/-! ### non-vacuity: a trace of the real implementation (harness/multisignal.c, script
+    `t|t|p,R,p`, 3 kernel threads, VR_SCHED=rand VR_SWITCH=2 VR_SEED=159) projected to model
+    events.  It contains, in this order: a latch (NULL→RAISED), a CAS2 of waiter 16 that FAILS
+    on its stale snapshot (0, NULL), a coalescing raise (RAISED→RAISED), waiter 16 consuming
+    the latch (RAISED→NULL), waiter 16 listing itself, and a raise releasing it. -/
+def witness : List Ev :=
+  [.callTake 16, .ldTokens 16 0, .callWait 16, .clrScratch 16, .rNode 16 16 16, .callPublish 18,
+   .faddTokens 18 0, .callRaise 18 false, .wData 16 16 16, .ldC 16 0, .ldC 18 0, .ldH 18 .nil,
+   .ldH 16 .nil, .wNext 16 16 .nil, .cas2 18 0 .nil 1 .raised true, .retRaise 18 false false,
+   .callRaise 18 false, .cas2 16 0 .nil 1 (.node 16) false, .ldC 18 1, .ldH 18 .raised,
+   .cas2 18 1 .raised 2 .raised true, .retRaise 18 false false, .callPublish 18, .callTake 17,
+   .ldTokens 17 1, .casTokens 17 1 1 0 true, .took 17, .ldTokens 17 0, .retTake 17, .ldC 16 2,
+   .ldH 16 .raised, .cas2 16 2 .raised 3 .nil true, .retWait 16, .ldTokens 16 0, .callWait 16,
+   .clrScratch 16, .rNode 16 16 16, .wData 16 16 16, .ldC 16 3, .ldH 16 .nil, .wNext 16 16 .nil,
+   .faddTokens 18 0, .callRaise 18 false, .cas2 16 3 .nil 4 (.node 16) true, .ldC 18 4,
+   .ldH 18 (.node 16), .wStateWaiting 16, .rNext 18 16 .nil, .setWait 1 16,
+   .cas2 18 4 (.node 16) 5 .nil true, .rData 18 16 16, .wNode 18 16 16, .rScratch 18 16 true,
+   .wStateReady 18 16, .retRaise 18 false true, .clrScratch 16, .retWait 16, .ldTokens 16 1,
+   .casTokens 16 1 1 0 true, .took 16, .ldTokens 16 0, .retTake 16]
+
+example : (msys.run witness).map (fun s => (s.counter, s.head, s.stack, s.tokens))
+    = some (5, .nil, [], 0) := by decide
+
+example : (msys.run witness).map (fun s => (s.latched, s.coalesced, s.consumed, s.released))
+    = some (1, 1, 1, 1) := by decide
+
+example : (msys.run witness).map (fun s => (s.parks 16, s.wakes 16, s.parks 17, s.wakes 17))
+    = some (1, 1, 0, 0) := by decide
+
+/-- the hypotheses of `raise_one_or_latch` are met inside that trace (first alternative): after
+    49 events raiser 18 holds the snapshot (4, N16) and `next` = NULL, fiber 16 is listed … -/
+example : (msys.run (witness.take 49)).map (fun s => (s.pc 18, s.stack, s.counter))
+    = some (.rNext 4 16 .nil, [16], 4) := by decide
+
+/-- … and its CAS2 succeeds, unlisting 16 and making 18 its waker -/
+example : ((msys.run (witness.take 49)).bind (fun s => step s (.cas2 18 4 (.node 16) 5 .nil true))).map
+      (fun s => (s.stack, s.waker 16, s.pc 18, s.released))
+    = some ([], some 18, .rPopped 16, 1) := by decide
+
+/-- the stale CAS2 of waiter 16 (snapshot (0, NULL) taken before the latch) is in the trace and
+    fails: event 18 -/
+example : witness[17]? = some (.cas2 16 0 .nil 1 (.node 16) false) := by decide
+
+end MultiSignal
 
 end LibfiberVerif.Props.C20
